@@ -7,6 +7,7 @@ import (
 	"regexp"
 	"strconv"
 	"strings"
+	"sync"
 
 	at "github.com/DanielSvub/anytype"
 
@@ -76,6 +77,11 @@ func (e *errRender) site(kind string) bool {
 // badLiteral writes an invalid literal (possibly split by whitespace, which the parser skips inside values).
 func (e *errRender) badLiteral() {
 	tok := badLiterals[e.r.Intn(len(badLiterals))]
+	if e.r.Chance(1, 4) {
+		// long invalid literals (messages that quote them get long)
+		n := []int{40, 79, 80, 81, 82, 83, 84, 85, 100, 127, 128, 129, 200, 300}[e.r.Intn(14)]
+		tok = strings.Repeat("x", n-1) + "y"
+	}
 	e.doc.Token = tok
 	e.doc.Injected = true
 	for i := 0; i < len(tok); i++ {
@@ -166,6 +172,10 @@ func (e *errRender) value(s *spec.Spec) {
 // genLineTree: trees with printable ASCII strings (newlines inside strings are escaped by strconv.Quote and so
 // never count), nested under both kinds.
 func genLineTree(r *rng.R, root spec.Kind) *spec.Spec {
+	maxD, chance := 5, 4
+	if r.Chance(1, 15) {
+		maxD, chance = 40, 7 // narrow but deep
+	}
 	var rec func(k spec.Kind, depth int) *spec.Spec
 	rec = func(k spec.Kind, depth int) *spec.Spec {
 		s := &spec.Spec{K: k}
@@ -173,9 +183,12 @@ func genLineTree(r *rng.R, root spec.Kind) *spec.Spec {
 		if depth == 1 && n == 0 {
 			n = 2
 		}
+		if maxD > 5 && depth > 3 {
+			n = r.Range(1, 2)
+		}
 		for i := 0; i < n; i++ {
 			var v *spec.Spec
-			if depth < 5 && r.Chance(4, 10) {
+			if depth < maxD && r.Chance(chance, 10) {
 				ck := spec.List
 				if r.Bool() {
 					ck = spec.Obj
@@ -231,7 +244,7 @@ func genErrDoc(r *rng.R, root spec.Kind) *errDoc {
 	e := &errRender{r: r.Fork(), kind: kind, target: target, doc: doc, nlWeight: nlw}
 	// preamble before the root bracket (free of that bracket), possibly with newlines
 	if r.Chance(1, 2) {
-		pre := []string{"// header\n", "\n\n", "garbage text\nmore\n", "  \t", "x = ", "\r\n\r\n", "# a ] b } c\n"}[r.Intn(7)]
+		pre := []string{"// header\n", "\n\n", "garbage text\nmore\n", "  \t", "x = ", "\r\n\r\n", "# a ] b } c\n", strings.Repeat("line\n", 70000), strings.Repeat("\n", 300)}[r.Intn(9)]
 		if root == spec.List {
 			pre = strings.ReplaceAll(pre, "[", "(")
 		} else {
@@ -281,6 +294,37 @@ func runC20(c *fw.Ctx) {
 			lines[l] = true
 		}
 		c20Check(c, &errDoc{Text: p.text, Kind: "pinned", Token: p.tok, Lines: lines, Injected: true}, p.root, 0)
+	})
+	// several goroutines parse erroneous documents at the same time: each call still cites its own line
+	c.Cases("concurrent", c.N(40, 2000), false, func(i int, r *rng.R) {
+		g := r.Range(2, 12)
+		docs := make([]*errDoc, 0, g)
+		roots := make([]spec.Kind, 0, g)
+		for len(docs) < g {
+			root := spec.List
+			if r.Bool() {
+				root = spec.Obj
+			}
+			if d := genErrDoc(r, root); d != nil {
+				docs = append(docs, d)
+				roots = append(roots, root)
+			}
+		}
+		var wg sync.WaitGroup
+		start := make(chan struct{})
+		for j := range docs {
+			wg.Add(1)
+			go func(d *errDoc, root spec.Kind) {
+				defer wg.Done()
+				<-start
+				for rep := 0; rep < 20; rep++ {
+					guard(c, func() string { return d.Text }, func() { c20CheckVia(c, d, root, 0, "") })
+				}
+			}(docs[j], roots[j])
+		}
+		close(start)
+		wg.Wait()
+		c.Count("concurrent_parse_rounds")
 	})
 	dir := filepath.Join(c.WorkDir, fmt.Sprintf("c20files.%d", c.Shard))
 	c.Cases("docs", c.N(3000, 2000000), false, func(i int, r *rng.R) {
